@@ -298,17 +298,18 @@ fn validate_rpc_limits(
     max_publish_messages: usize,
     max_control_message_size: usize,
 ) -> io::Result<bool> {
+    // Consume length prefix and get message bytes from length-prefixed buffer for validation
+    if !consume_message_prefix(&mut buf)? {
+        return Ok(false);
+    }
+
+    // `buf` now is exactly one frame: the limit applies to it, not to whatever else is buffered.
     let message_length = buf.len();
     if message_length > max_message_size {
         return Err(io::Error::new(
             io::ErrorKind::InvalidData,
             format!("message with {message_length}b exceeds maximum of {max_message_size}b",),
         ));
-    }
-
-    // Consume length prefix and get message bytes from length-prefixed buffer for validation
-    if !consume_message_prefix(&mut buf)? {
-        return Ok(false);
     }
 
     let mut publish_count = 0;
@@ -352,14 +353,14 @@ impl Decoder for GossipsubCodec {
 
     fn decode(&mut self, src: &mut BytesMut) -> Result<Option<Self::Item>, Self::Error> {
         // Pre-validate: discard if limits exceeded
-        if !validate_rpc_limits(
+        // An incomplete frame is still handed to the inner codec below: it returns `None` for it,
+        // but rejects an oversized length prefix without waiting for the body.
+        validate_rpc_limits(
             src.as_ref(),
             self.global_max_transmit_size,
             self.max_publish_messages,
             self.max_control_message_size,
-        )? {
-            return Ok(None);
-        };
+        )?;
 
         // Safe to decode with prost
         let Some(mut rpc) = self.codec.decode(src)? else {
